@@ -1,0 +1,18 @@
+//! Verification facade (cargo feature `verif-hooks`).
+//!
+//! Add-only access to crate-private items for the external verification harness. Nothing in
+//! here is used by the crate itself; with the feature off this module does not exist.
+#![allow(missing_docs, clippy::type_complexity, clippy::too_many_arguments)]
+
+pub mod handler;
+pub mod ipvote;
+pub mod kbucket;
+pub mod limiter;
+pub mod lru;
+pub mod packet;
+pub mod query;
+pub mod rpc;
+pub mod service;
+pub mod talk;
+
+pub use packet::*;
